@@ -104,6 +104,7 @@ func (e *Env) walkOne(label string, c *gkvlite.Collection, m *model.Coll, free, 
 	if c == nil {
 		return
 	}
+	e.lastSeq = nil
 	ri := gkvlite.VerifRootInfo(c)
 	if !ri.Open {
 		e.Failf("walk/handle-closed/"+label, "open handle has no current version (root == nil)")
@@ -236,6 +237,7 @@ func (e *Env) walkOne(label string, c *gkvlite.Collection, m *model.Coll, free, 
 		e.Failf("C13/in-memory-tree/"+classify(fail)+"/"+label, "%s", fail)
 		return
 	}
+	e.lastSeq = seq
 	want := m.Sorted()
 	if len(seq) != len(want) {
 		e.Failf("C13/in-memory-tree/contents/"+label, "tree holds %d items, model %d", len(seq), len(want))
@@ -374,4 +376,36 @@ func (e *Env) ShapeCheck(name string) {
 		return
 	}
 	e.Stats["shape.checks"]++
+}
+
+// TrueDepths returns the depth of every key of the original's collection
+// name as introspected through the hook walk and the decoder (nil if the
+// walk found a problem, which is then recorded as a violation).
+func (e *Env) TrueDepths(name string) map[string]int {
+	c, m := e.coll(name)
+	if c == nil {
+		return nil
+	}
+	// depths only change with the tree, not with what is cached: reuse the
+	// result until the next mutating operation
+	epoch := e.Stats["op.Set"] + e.Stats["op.Delete"] + e.Stats["op.Open"] + e.Stats["op.FlushRevert"] + e.Stats["op.SetCollection"] + e.Stats["op.RemoveCollection"]
+	if e.depthCache != nil && e.depthEpoch == epoch && e.depthName == name {
+		return e.depthCache
+	}
+	defer func() { e.depthEpoch, e.depthName = epoch, name }()
+	e.depthCache = nil
+	var img []byte
+	if e.F != nil {
+		img = e.F.Bytes()
+	}
+	e.walkOne("orig", c, m, gkvlite.VerifFreeNodes(), gkvlite.VerifFreeRootNodeLocs(), gkvlite.VerifFreeNodeLocs(), img)
+	if e.Failed() || e.lastSeq == nil {
+		return nil
+	}
+	res := map[string]int{}
+	for _, it := range e.lastSeq {
+		res[string(it.Key)] = it.Depth
+	}
+	e.depthCache = res
+	return res
 }
